@@ -738,6 +738,11 @@ class Engine:
         m = re.match(r'^(-?[0-9.eE+]+)(f32|f64)$', text)
         if m:
             return OpaqueV('float', float(m.group(1)))
+        m = re.match(r'^RepeatWith::<.*> \{\{ repeater: (.*) \}\}$', text)
+        if m:
+            # iter::repeat_with(<zero-sized fn item>) const-folded by rustc
+            from .models_core import iter_obj, RepeatWithIter
+            return iter_obj(RepeatWithIter(FnItemV(m.group(1).strip())))
         return self.eval_named_const(text, frame.fn.crate if frame is not None else None)
 
     def eval_named_const(self, text, crate=None):
@@ -822,6 +827,8 @@ class Engine:
             h = SPECIAL_DISCR.get(type(v))
             if h:
                 return h(self, v)
+            if isinstance(v, ObjV) and type(v.obj) in SPECIAL_DISCR:
+                return SPECIAL_DISCR[type(v.obj)](self, v.obj)
             raise Inconclusive('discriminant of %r' % (v,))
         if k == 'len':
             v = self.read_place(frame, rv[1])
